@@ -3,6 +3,7 @@
 Everything about "what a type contains" is computed here from `typing`/`dataclasses` only."""
 from __future__ import annotations
 
+import enum
 import inspect
 import typing
 
@@ -155,6 +156,25 @@ def check_sequence(root, nodes, evaluate):
         # a revisit: the denoted type is also present as a full node
         if not any(teq(f.type, d) or teq(peel(f.type), peel(d)) for _, f in fulls):
             v.append(("deferred-not-a-revisit", f"{n!r} denotes {d!r} which has no full node"))
+    # nodes stand for member TYPES: a plain value (the values of a Literal are values, not members) is never a node - unless it is a
+    # string some generic carries as an argument (`list['Name']`, a reference) or a class lists as a raw annotation
+    for i, n in enumerate(nodes):
+        t = n.type
+        if not (t is None or isinstance(t, (int, float, str, bytes, enum.Enum))) or i == len(nodes) - 1:
+            continue  # (the root is whatever the caller asked for)
+        explained = False
+        for f in nodes:
+            if f is n:
+                continue
+            x = peel(f.type)
+            if typing.get_origin(x) is typing.Literal:
+                continue
+            raw = list(typing.get_args(x)) + list(getattr(x, "__annotations__", {}).values() if inspect.isclass(x) else [])
+            if any(a is t or (type(a) is type(t) and a == t) for a in raw):
+                explained = True
+                break
+        if not explained:
+            v.append(("value-node", f"{n!r}: a value, not a type, and no generic or class lists it as a member"))
     # string-valued alias: single deferred node carrying a ForwardRef to its body
     for i, n in fulls:
         if is_string_alias(n.type):
